@@ -90,7 +90,7 @@ var sibDims = engine.Space{
 	// UserInfo claims (fields of *IDTokenClaims only; foreign for the two other containers)
 	engine.D("userinfo", "absent", "plausible", "foreign"),
 	// registered claims the library has no field for: cnf, s_hash, may_act, roles, groups,
-	// entitlements, typ, session_state
+	// entitlements, typ, session_state, and the header parameter names alg, kid as claims
 	engine.D("extra", "absent", "present"),
 }
 
@@ -163,6 +163,8 @@ func addSiblings(p map[string]any, g func(string) string, alg string, at func(in
 		p["may_act"] = map[string]any{"sub": cid}
 		p["roles"], p["groups"], p["entitlements"] = []any{"a1"}, []any{cid}, []any{"x"}
 		p["typ"], p["session_state"] = "ID", "n1"
+		// header parameter names used as claim names
+		p["alg"], p["kid"] = "none", "k1"
 	}
 	return nbfFuture
 }
